@@ -66,7 +66,12 @@ pub fn world_for(tokens: &[Tok], markets: &[(usize, usize, usize)], n_users: usi
     };
     let d = deploy::deploy_full(&mut w, &opts);
     let v = (w, d);
-    cache.lock().unwrap().entry(key).or_insert_with(|| v.clone());
+    // bounded: configurations are swarm-drawn, so the number of distinct keys is large in long batches
+    let mut c = cache.lock().unwrap();
+    if c.len() < 384 {
+        c.entry(key).or_insert_with(|| v.clone());
+    }
+    drop(c);
     v
 }
 
